@@ -33,7 +33,8 @@ COMPONENTS = {"real": ["dali.memory.location.MemoryValue.read / read_raw / from_
                        "dali.memory.* declarations", "gear / device memory commands"],
               "stub": ["bus, control gear / control device memory incl. latch (sim/busim.py)", "driver"]}
 PROBES = ["location-beyond-last", "hole", "answer-dropped", "answer-garbled", "latched-read", "mutation-during-read",
-          "mutation-hidden-by-latch", "device-addressing", "read-all", "initial-lock-byte-aa"]
+          "mutation-hidden-by-latch", "device-addressing", "read-all", "initial-lock-byte-aa",
+          "same-bank-read-on-another-line-concurrently"]
 
 
 def gen_base(seed, tier="quick"):
@@ -63,7 +64,11 @@ def gen_base(seed, tier="quick"):
             "last": last, "holes": sorted(holes), "lock": r.choice([0xFF, 0xFF, 0x55, 0xAA, 0x33]),
             "unit": r.choice(["gear", "gear", "device"]), "short": r.randrange(64),
             "pattern": r.choice(["random", "random", "ff", "fe", "mixed", "edges", "edges"]),
-            "mutate": r.random() < 0.35, "fault": None}
+            "mutate": r.random() < 0.35, "fault": None,
+            # another line's unit has the same bank read at the same time (the bank objects are module-level
+            # singletons shared by every unit and driver of the process)
+            "companion": ({"latch": r.random() < 0.6, "start": r.randrange(0, 12),
+                           "pace": [r.choice([0, 0, 1, 1, 2, 4]) for _ in range(8)]} if r.random() < 0.15 else None)}
 
 
 def run_plan(plan):
@@ -115,7 +120,21 @@ def run_plan(plan):
     else:
         v = None
         gen = lib.read_all(addr, use_latch=(kind == "all-latch"))
+    comp = None
+    if plan.get("companion"):
+        cp = plan["companion"]
+        cbank = memsim.make_model(key, plans.rng_for(plan["seed"], PROP + "-companion"), lock=0xFF)
+        cunit = memsim.make_unit("gear", 9, [cbank])
+        comp = busim.Stepper(lib.read_all(memsim.addr_obj("gear", 9), use_latch=cp["latch"]), busim.Bus([cunit]), cap=700)
+        env0 = env
+
+        def env(i, cmd, b):                      # noqa: F811
+            if i >= cp["start"]:
+                comp.step(cp["pace"][i % len(cp["pace"])])
+            env0(i, cmd, b)
     sr = busim.run_sequence(gen, bus, answer_faults=faults, cap=700, env=env, log=log)
+    if comp is not None:
+        comp.finish()
     fired = {c[0]: c[4] for c in sr.commands if c[4]}
     # every READ MEMORY LOCATION the sequence issued, with DTR state of the model
     pre_latched = plan["lock"] == 0xAA and bank.has_latch
@@ -252,6 +271,13 @@ def run_plan(plan):
             V("bank-left-latched", "bank %s lock byte is 0xAA after %s (%s, %r); the un-latch write was %s" % (
                 key, kind, sr.status, sr.exc, "sent" if any(_is_unlatch(c[1]) for c in sr.commands) else "never sent"),
               site=why)
+    if comp is not None:
+        probes["same-bank-read-on-another-line-concurrently"] = 1
+        if cbank.has_latch and cbank.cells[2] == 0xAA:
+            V("bank-left-latched", "the other line's unit (read_all of the same bank running at the same time) is left "
+              "latched: lock byte 0xAA", site="concurrent-read")
+        elif comp.status != "return":
+            V("read-failed", "the other line's read_all ended %s %r" % (comp.status, comp.exc), site="concurrent-read")
     if mutated[0]:
         probes["mutation-during-read"] = 1
     if plan["unit"] == "device":
@@ -323,6 +349,10 @@ def _strip(results):
 
 
 def shrink(plan):
+    if plan.get("companion"):
+        p = copy.deepcopy(plan)
+        p["companion"] = None
+        yield p
     if plan["fault"]:
         p = copy.deepcopy(plan)
         p["fault"] = None
